@@ -100,7 +100,11 @@ class PlanConverter:
                 if discrete_effect.is_positive:
                     add_effects.add(discrete_effect.untyped_representation)
                 else:
-                    delete_effects.add(discrete_effect.untyped_representation)
+                    # a delete effect is identified by the atom it removes, so that it can be compared with the
+                    # add effects and the preconditions of the other actions.
+                    deleted_atom = discrete_effect.copy()
+                    deleted_atom.is_positive = True
+                    delete_effects.add(deleted_atom.untyped_representation)
 
             for numeric_effect in effect.grounded_numeric_effects:
                 affected_variable = numeric_effect.root.children[
